@@ -292,10 +292,20 @@ func (w *World) GenRule(r *hlib.Rand) Rule {
 			ru.End = ru.Start + int32(r.Intn(3000))
 		}
 	}
-	// selectors: usually exactly one, sometimes several or none
+	// selectors: usually exactly one, sometimes several or none; two times out of three aimed at a peer
+	var aim *Cert
+	if len(w.Peers) > 0 && r.Chance(2, 3) {
+		aim = w.Peers[r.Intn(len(w.Peers))]
+	}
 	k := r.Intn(10)
 	if k < 3 || k == 8 {
 		ru.Groups = subset(r, groupNames, 3)
+		if aim != nil && len(aim.CGroups) > 0 {
+			ru.Groups = subset(r, aim.CGroups, 3)
+			if len(ru.Groups) == 0 {
+				ru.Groups = []string{aim.CGroups[r.Intn(len(aim.CGroups))]}
+			}
+		}
 		if len(ru.Groups) == 0 {
 			ru.Groups = []string{hlib.Pick(r, groupNames...)}
 		}
@@ -305,6 +315,9 @@ func (w *World) GenRule(r *hlib.Rand) Rule {
 	}
 	if (k >= 3 && k < 5) || k == 8 {
 		ru.Host = hlib.Pick(r, "h1", "h2", "h3", "any", "h1")
+		if aim != nil && r.Chance(4, 5) {
+			ru.Host = aim.CName
+		}
 	}
 	if (k >= 5 && k < 8) || k == 8 {
 		if r.Chance(1, 6) {
@@ -324,9 +337,19 @@ func (w *World) GenRule(r *hlib.Rand) Rule {
 	}
 	if r.Chance(1, 4) {
 		ru.CAName = hlib.Pick(r, "caA", "caA", "caB", "caC")
+		if aim != nil {
+			for _, ca := range w.CAs {
+				if ca[0] == aim.CIssuer && r.Chance(3, 4) {
+					ru.CAName = ca[1]
+				}
+			}
+		}
 	}
 	if r.Chance(1, 4) {
 		ru.CASha = hlib.Pick(r, "ca1", "ca1", "ca2", "ca3")
+		if aim != nil && aim.CIssuer != "" && r.Chance(3, 4) {
+			ru.CASha = aim.CIssuer
+		}
 	}
 	return ru
 }
